@@ -21,12 +21,13 @@ var coseAlgID = map[string]int64{"ES256": refcose.AlgES256, "ES384": refcose.Alg
 	"EdDSA": refcose.AlgEdDSA, "PS256": refcose.AlgPS256, "PS384": refcose.AlgPS384, "PS512": refcose.AlgPS512}
 
 func runC03(c *mon.Ctx) {
-	c.Rule("(a) valid claims-sets of both profiles and of a registered profile-2 extension (all optional subsets, hash sizes, 1-4 components, P1 flag or list, with/without explicit P1 profile; built directly / by setters / by decoding) x 7 algorithms x fresh keys: SetClaims + ValidateAndSign (and Sign) must succeed; the token read by the independent COSE reader must be tag 18 / 4-array / [bstr, map, bstr, non-empty bstr], its payload byte-identical to ValidateAndEncodeClaimsToCBOR(claims), its protected header must carry the signer's algorithm under label 1; the independent verifier (Go stdlib crypto over a Sig_structure rebuilt by the harness) and Evidence.Verify on the signing Evidence must accept it; DecodeAndValidateEvidenceFromCOSE must succeed, return the same implementation type and identical Validate/getter results (also equal to the reference model's expectation), verify under the signer's key, and hold (hook H2) exactly the token's protected/payload/signature bytes; for every third case the attached claims are then edited in place (new nonce) and the SAME Evidence signs again: the second token's payload must be the encoding of the claims as they are now, verify, decode, and carry the new nonce; (b) invalid claims-sets signed with the non-validating Sign: the claims of the decoded Evidence must equal DecodeClaimsFromCBOR(payload read by the independent reader). distinct_nontrivial = distinct (algorithm, profile, route, optional-subset, nonce size, component count) signatures")
+	c.Rule("(a) valid claims-sets of both profiles and of a registered profile-2 extension (all optional subsets, hash sizes, 1-4 components, P1 flag or list, with/without explicit P1 profile; built directly / by setters / by decoding) x 7 algorithms x fresh keys: SetClaims + ValidateAndSign (and Sign) must succeed; the token read by the independent COSE reader must be tag 18 / 4-array / [bstr, map, bstr, non-empty bstr], its payload byte-identical to ValidateAndEncodeClaimsToCBOR(claims), its protected header must carry the signer's algorithm under label 1; the independent verifier (Go stdlib crypto over a Sig_structure rebuilt by the harness) and Evidence.Verify on the signing Evidence must accept it; DecodeAndValidateEvidenceFromCOSE must succeed, return the same implementation type and identical Validate/getter results (also equal to the reference model's expectation), verify under the signer's key, and hold (hook H2) exactly the token's protected/payload/signature bytes; for every third case the attached claims are then edited in place (new nonce) and the SAME Evidence signs again: the second token's payload must be the encoding of the claims as they are now, verify, decode, and carry the new nonce; every fourth case the DECODED Evidence signs again with a key of another algorithm (re-issue): header algorithm, independent verification and payload are checked; every signing Evidence and token is kept and re-verified after six further cases; (b) invalid claims-sets signed with the non-validating Sign: the claims of the decoded Evidence must equal DecodeClaimsFromCBOR(payload read by the independent reader). distinct_nontrivial = distinct (algorithm, profile, route, optional-subset, nonce size, component count) signatures")
 	if err := extprof.Register(extprof.ExtP2Name); err != nil {
 		c.Violation("harness/register", err.Error(), nil)
 		return
 	}
 	g := model.NewGen(c.Seed*7717 + int64(c.Shard))
+	var held03 []c03Held
 	n := c.N(22400, 560000)
 	for i := 0; i < n; i++ {
 		alg := keys.AlgNames[i%7]
@@ -146,6 +147,7 @@ func runC03(c *mon.Ctx) {
 			// sign again on the SAME Evidence after the attached claims were
 			// edited in place (new challenge): the new token must carry the
 			// claims as they are now
+			curTok := st.tok
 			if i%3 == 0 {
 				newNonce := g.Bytes(g.HashLen())
 				if err := x.SetNonce(newNonce); err != nil {
@@ -182,7 +184,62 @@ func runC03(c *mon.Ctx) {
 					bad("second-sign-stale-claims", "the second token does not carry the new nonce", d)
 					return
 				}
+				curTok = tok2
 				c.Count("second-signs")
+			}
+			// re-issue: the DECODED Evidence signs again, with a key of another
+			// algorithm; the new token must be a valid token of the new signer
+			if i%4 == 1 {
+				alg2 := keys.AlgNames[(i/4+1+i%7)%7]
+				if alg2 == alg {
+					alg2 = keys.AlgNames[(i%7+3)%7]
+				}
+				k2 := keys.New(alg2, g.R.Intn(3))
+				tok3, err := dv.ValidateAndSign(k2.Signer)
+				if err != nil {
+					bad("reissue-failed", "a decoded Evidence could not sign again with another key: "+err.Error(), d)
+					return
+				}
+				env3, perr := refcose.Parse(tok3)
+				d["token3_hex"] = mon.Hex(tok3)
+				if perr != nil {
+					bad("reissue-unreadable", "re-issued token unreadable: "+perr.Error(), d)
+					return
+				}
+				if got, ok := env3.Alg(); !ok || got != coseAlgID[alg2] {
+					bad("reissue-protected-alg", fmt.Sprintf("token re-issued with a %s key carries algorithm %d in its protected header", alg2, got), d)
+					return
+				}
+				if err := env3.Verify(k2.Pub); err != nil {
+					bad("reissue-independent-verify-failed", "re-issued token rejected by the independent verifier under the new signer's key: "+err.Error(), d)
+					return
+				}
+				if d3, err := psatoken.DecodeAndValidateEvidenceFromCOSE(tok3); err != nil || d3.Verify(k2.Pub) != nil || dv.Verify(k2.Pub) != nil {
+					bad("reissue-not-accepted", fmt.Sprintf("re-issued token not decodable+verifiable (%v)", err), d)
+					return
+				}
+				if !bytes.Equal(env3.Payload, st.env.Payload) {
+					bad("reissue-payload-differs", "re-issued token carries another payload than the token it was decoded from", d)
+					return
+				}
+				c.Count("reissued-with-other-algorithm")
+			}
+			// the signing Evidence and the token are still good after further use of the library
+			held03 = append(held03, c03Held{ev: st.ev, tok: curTok, copy: append([]byte{}, curTok...), pub: k.Pub, sig: sig})
+			if len(held03) > 6 {
+				h := held03[0]
+				held03 = held03[1:]
+				c.Count("held-evidence-rechecked")
+				henv, perr := refcose.Parse(h.copy)
+				_, _, hpay, _, herr := hookEnvelope(h.ev)
+				switch {
+				case !bytes.Equal(h.tok, h.copy):
+					c.Violation("C03/token-bytes-changed-later", "the token bytes returned by a sign operation changed after further calls into the library", map[string]any{"sig": h.sig})
+				case h.ev.Verify(h.pub) != nil:
+					c.Violation("C03/held-evidence-no-longer-verifies", "a signing Evidence verified right after signing but no longer does after further signs / encodes of OTHER objects", map[string]any{"sig": h.sig})
+				case perr != nil || herr != nil || !bytes.Equal(hpay, henv.Payload):
+					c.Violation("C03/held-evidence-payload-changed", "the payload held by a signing Evidence changed after further use of the library", map[string]any{"sig": h.sig})
+				}
 			}
 			c.Count("round-trips")
 			c.Count("profile:" + a.Canon)
@@ -210,6 +267,16 @@ func runC03(c *mon.Ctx) {
 	c.Floor("profile:"+extprof.ExtP2Name, 30)
 	c.Floor("invalid-signed-decoded", 50)
 	c.Floor("second-signs", 300)
+	c.Floor("reissued-with-other-algorithm", 300)
+	c.Floor("held-evidence-rechecked", 1000)
+}
+
+type c03Held struct {
+	ev   *psatoken.Evidence
+	tok  []byte
+	copy []byte
+	pub  any
+	sig  string
 }
 
 func profName(a *model.Claims) string {
